@@ -57,5 +57,29 @@ fn main() {
             std::process::exit(2);
         }
     };
+    // thorough tier of C14 / C15: the same enumeration again on the release-profile binary (no overflow checks)
+    let mut rep = rep;
+    if let Ok(rel) = std::env::var("RBP_BIN_RELEASE") {
+        if !rel.is_empty() && matches!(args[1].as_str(), "C14" | "C15") {
+            std::env::set_var("RBP_BIN", &rel);
+            let mut r2 = match args[1].as_str() {
+                "C14" => c14::run(),
+                _ => c15::run(),
+            };
+            // keep the two profiles apart in signatures and counters
+            let d = std::mem::take(&mut r2.disagreements);
+            for (k, v) in d {
+                r2.disagreements.insert(format!("release-profile:{}", k), v);
+            }
+            let c = std::mem::take(&mut r2.counters);
+            for (k, v) in c {
+                r2.counters.insert(format!("release:{}", k), v);
+            }
+            let nt: Vec<[u8; 8]> = r2.nontrivial.iter().map(|h| { let mut x = *h; x[0] ^= 0xff; x }).collect();
+            r2.nontrivial = nt.into_iter().collect();
+            rep.merge(r2);
+            rep.bound["profiles"] = serde_json::json!(["dev", "release"]);
+        }
+    }
     std::process::exit(rep.finish());
 }
